@@ -362,8 +362,58 @@ def shrink(case, same_failure):
     return best, steps
 
 
+def source_comparison():
+    """Statement-by-statement comparison of the two functions' string branch (evidence only):
+    after replacing `cls(X, **args)` by X the bodies should differ only where `seq` is read."""
+    import ast
+    import inspect
+    import textwrap
+    from sympde.core.utils import expand_name_patterns
+    from sympy.core.symbol import symbols
+
+    class Norm(ast.NodeTransformer):
+        def visit_Call(self, node):
+            self.generic_visit(node)
+            if isinstance(node.func, ast.Name) and node.func.id == "cls" and len(node.args) == 1:
+                return node.args[0]
+            return node
+
+    def flat(fn):
+        tree = ast.parse(textwrap.dedent(inspect.getsource(fn)))
+        out = []
+
+        def walk(stmts, depth):
+            for st in stmts:
+                if isinstance(st, ast.Expr) and isinstance(st.value, ast.Constant) and isinstance(st.value.value, str):
+                    continue      # docstring
+                st = Norm().visit(st)
+                head = ast.unparse(st).splitlines()[0]
+                out.append("  " * depth + head)
+                for field in ("body", "orelse"):
+                    sub = getattr(st, field, None)
+                    if isinstance(sub, list) and sub and isinstance(sub[0], ast.stmt):
+                        if field == "orelse":
+                            out.append("  " * depth + "else:")
+                        walk(sub, depth + 1)
+        walk(tree.body[0].body, 0)
+        return out
+    import difflib
+    a, b = flat(expand_name_patterns), flat(symbols)
+    diff = [l for l in difflib.unified_diff(a, b, "sympde.expand_name_patterns", "sympy.symbols", lineterm="", n=0)
+            if not l.startswith("@@")]
+    same = sum(1 for x in difflib.SequenceMatcher(None, a, b).get_matching_blocks() for _ in range(x.size))
+    return {"statements_sympde": len(a), "statements_sympy": len(b), "identical_statements": same, "diff": diff}
+
+
 def main():
     payload = json.load(open(sys.argv[1]))
+    if "srcdiff" in payload:
+        try:
+            out = source_comparison()
+        except Exception as e:  # noqa
+            out = {"error": "%s: %s" % (type(e).__name__, e)}
+        json.dump(out, open(sys.argv[2], "w"))
+        return
     if "shrink" in payload:
         case = payload["shrink"]
         r0 = run_case(case)
